@@ -592,6 +592,7 @@ pub fn subjects() -> Vec<PullSubject> {
     v.push(PullSubject { name: "stream", arity: 1, flags: &[], strict_is_fused: false, run: |c, k, o| if c.fused { run_stream::<true>(c, k, o) } else { run_stream::<false>(c, k, o) } });
     v.push(PullSubject { name: "stream_ready", arity: 1, flags: &[], strict_is_fused: true, run: run_stream_ready });
     v.push(PullSubject { name: "poll_fn", arity: 1, flags: &[], strict_is_fused: true, run: run_poll_fn });
+    v.push(PullSubject { name: "by_ref(take(n)) then rest", arity: 1, flags: &[Flag::UsesN], strict_is_fused: false, run: |c, k, o| if c.fused { run_by_ref::<true>(c, k, o) } else { run_by_ref::<false>(c, k, o) } });
     v
 }
 
@@ -826,6 +827,24 @@ fn run_poll_fn(case: &PullCase, known: &Known, obs: &mut Obs) -> Result<(), Fail
     drive(&Drive { name, env: &env, known, extra_polls: false, check_hints: true }, p.map(|x| x + 3), &expected, obs)
 }
 
+/// `&mut P: Pull`: take the first n items through `by_ref()`, then keep pulling the same pull.
+fn run_by_ref<const F: bool>(case: &PullCase, known: &Known, obs: &mut Obs) -> Result<(), Fail> {
+    let name = "by_ref(take(n)) then rest";
+    let items: Vec<i64> = items_of(&case.a).into_iter().map(|x| x + 1).collect();
+    let n = (case.n as usize).min(items.len());
+    let env = Env::new(&case.tape);
+    let mut p = Src::<i64, TaskC, F>::new(&env, &case.a, case.hint()).map(|x| x + 1);
+    let d = Drive { name, env: &env, known, extra_polls: true, check_hints: true };
+    // phase 1 only runs when the source holds more than n items, so that `take` ends by count
+    // and never observes the source's end (a second phase on a non-fused source needs that)
+    if items.len() > n {
+        drive(&d, p.by_ref().take(n), &items[..n], obs)?;
+        drive(&Drive { extra_polls: F, ..d }, p, &items[n..], obs)
+    } else {
+        drive(&Drive { extra_polls: F, ..d }, p.by_ref(), &items, obs)
+    }
+}
+
 // ---------------------------------------------------------------------------------------------
 // Domains
 // ---------------------------------------------------------------------------------------------
@@ -875,7 +894,7 @@ fn bounds(s: &PullSubject, tier: Tier, fused_cfg: bool) -> Bounds {
                 (false, false, false) => ((3, 2), (3, 2)),
                 (false, false, true) => ((3, 2), (2, 2)),
                 (false, true, _) => ((2, 1), (2, 1)),
-                (true, false, false) => ((4, 2), (4, 2)),
+                (true, false, false) => ((4, 2), (4, 1)),
                 (true, false, true) => ((3, 2), (3, 2)),
                 (true, true, _) => ((3, 1), (3, 1)),
             };
@@ -969,7 +988,7 @@ pub fn run(ctx: &mut Ctx) {
         .filter(|(p, _)| p == "C11")
         .map(|(_, s)| s.clone())
         .collect();
-    ctx.rule = "Per subject (single pull combinator or 2-3 stage pipeline; 74 subjects), one case = item lists over {0,1,2} \
+    ctx.rule = "Per subject (single pull combinator or 2-3 stage pipeline; 73 subjects), one case = item lists over {0,1,2} \
                 for each input x a placement of <=k Pending steps in each input script (every multiset of slots, bounded-exhaustive; \
                 k=2 for short inputs) x pending tape for scripted inner streams/futures x take/skip parameter x source kind \
                 (strict: non-fused sources wherever the bounds allow; all-fused), plus seeded random cases (<=16 items, values 0..5, \
